@@ -6,7 +6,7 @@ from ref import asl as RA
 
 PROP = "C01"
 
-INPUTS = [{}, {"a": 1}, {"a": {"b": [1, 2]}, "b": "s", "items": [1, {"a": 1}]}, {"a": 0, "items": []}, [1, 2], 5, None, {"Error": "x"}]
+INPUTS = [{}, {"a": 1}, {"a": {"b": [1, 2]}, "b": "s", "items": [1, {"a": 1}]}, {"a": 0, "items": []}, [1, 2], 5, None, {"Error": "x"}, {"a": {"b": []}, "keep": 1}]
 T_OUT = [["ok", {"r": 1}], ["ok", 7], ["ok", [1]], ["ok", {"Error": "data", "x": 1}], ["err", "E1", "boom"],
          # by-attempt sequences (the worker counts attempts per payload): fail, fail with another error, then succeed
          [["err", "E1", "b1"], ["err", "E2", "b2"], ["ok", {"ok": 3}]], [["err", "E2", "b2"], ["err", "E2", "b2"], ["ok", 4]]]
@@ -121,7 +121,7 @@ def cases(tier):
         d = build(names)
         nt = count_tasks(d)
         outs = T_OUT if nt else [None]
-        ins = range(len(INPUTS)) if (tier == "thorough" or len(names) == 1) else (0, 1, 2, 3, 7)
+        ins = range(len(INPUTS)) if (tier == "thorough" or len(names) == 1) else (0, 1, 2, 3, 7, 8)
         for ii in ins:
             for o in outs:
                 out.append((names, ii, o))
